@@ -113,6 +113,7 @@ def py_checks(tr, e, name):
     zero = P(dim)
     if all(is_scalar(v) for v in vals) and all(d is not None and not is_scalar(d) and len(d) == dim for d in ders):
         res["grad"] = all(close(vals[i].deriv(a), ders[i][a]) for i in range(len(vals)) for a in range(dim))
+        res["deg"] = all(v.degree() <= int(e.maxdeg) for v in vals)
         nod = nodal_indices(e, len(vals))
         if nod:
             dl = np.asarray(e.doflocs, dtype=float)
@@ -176,7 +177,7 @@ def generate(update_expect=False):
          "GENERATED by harness/skv/gens/shapes.py: kernel-checked facts about the traced shape functions",
          "(`decide +kernel`, no axioms) -- do not edit.", "-/", "namespace Skv.Gen.Shapes", "open Skv", ""]
     report = {"traced": [], "untraceable": {}, "facts": {}, "unexpected": []}
-    h1_list, div_list, curl2_list, curl3_list = [], [], [], []
+    h1_list, div_list, curl2_list, curl3_list, deg_list = [], [], [], [], []
     expoly.SnapLog.worst = Fraction(0)
     for kind, lst in elements.pool().items():
         for name, fac in lst:
@@ -234,6 +235,10 @@ def generate(update_expect=False):
                 F.append(f"theorem {ln}_curl_ok : checkCurl3 {ln}_vals {ln}_ders shapeTol = true := by decide +kernel")
                 facts.append("curl3")
                 curl3_list.append(ln)
+            if expect[name].get("deg"):
+                F.append(f"theorem {ln}_deg_ok : checkDeg {ln}_vals {int(e.maxdeg)} = true := by decide +kernel")
+                facts.append("deg")
+                deg_list.append((ln, int(e.maxdeg)))
             nod = nodal_indices(e, len(vals)) if "grad" in outcomes else []
             if expect[name].get("dual") and nod:
                 dl = np.asarray(e.doflocs, dtype=float)
@@ -254,7 +259,7 @@ def generate(update_expect=False):
                          "decide +kernel")
                 facts.append("moments")
             for k, v in outcomes.items():
-                if k in ("dual", "pou", "moments") and v and not expect[name].get(k):
+                if k in ("dual", "pou", "moments", "deg") and v and not expect[name].get(k):
                     report["unexpected"].append((name, k, "holds now but not in the frozen expectation"))
             report["facts"][name] = facts
             F.append("")
@@ -282,6 +287,16 @@ def generate(update_expect=False):
     if curl3_list:
         table("hcurl3Elements", curl3_list, "({n}_vals, {n}_ders)", "List (List Poly) × List (List Poly)",
               "checkCurl3 E.1 E.2 shapeTol", "curl_ok")
+    if deg_list:
+        D.append("def degElements : List (List Poly × Nat) := [" +
+                 ", ".join(f"({n}_vals, {d})" for n, d in deg_list) + "]\n")
+        F.append("theorem degElements_ok : ∀ E ∈ degElements, checkDeg E.1 E.2 = true := by")
+        F.append("  intro E hE")
+        F.append("  simp only [degElements, List.mem_cons, List.not_mem_nil, or_false] at hE")
+        F.append("  rcases hE with " + " | ".join(["h"] * len(deg_list)))
+        for n, d in deg_list:
+            F.append(f"  · subst h; exact {n}_deg_ok")
+        F.append("")
     D.append("end Skv.Gen.Shapes")
     F.append("end Skv.Gen.Shapes")
     report["snap_worst"] = float(expoly.SnapLog.worst)
